@@ -49,8 +49,12 @@ pub fn exec(root: &str, cwd_rel: &str, args: &[String], stdin: &str, detrand: u6
     if !plan.is_empty() {
         env.push(("SIM_PLAN".into(), plan_string(plan)));
     }
+    let t_dbg = std::time::Instant::now();
     let out = proc::run(RunSpec { exe: proc::ASCA_BIN, args: args.to_vec(), cwd: Some(&cwd), env, stdin: stdin.as_bytes().to_vec(), timeout_ms: INV_TIMEOUT_MS })
         .unwrap_or_else(|e| harness_error(&format!("spawn asca: {e}")));
+    if t_dbg.elapsed().as_millis() > 1500 && std::env::var("VERIF_DEBUG").is_ok() {
+        eprintln!("DEBUG slow invocation {} ms: {:?} plan {:?} in {}", t_dbg.elapsed().as_millis(), args, plan, cwd);
+    }
     let txt = std::fs::read_to_string(&trace).unwrap_or_default();
     let _ = std::fs::remove_file(&trace);
     let mut ops = Vec::new();
